@@ -2,10 +2,23 @@
 
 package state
 
-import "github.com/elastos/Elastos.ELA/common/config"
+import (
+	"github.com/elastos/Elastos.ELA/common/config"
+	"github.com/elastos/Elastos.ELA/core/types/interfaces"
+)
 
-// ZZNewCommittee: a committee that only carries its parameters and an empty
-// CR state (harnesses outside this package cannot set the unexported field).
+// ZZNewCommittee: a committee that only carries its parameters, an empty CR
+// state and an empty proposal manager (harnesses outside this package cannot
+// set the unexported fields).
 func ZZNewCommittee(params *config.Configuration) *Committee {
-	return &Committee{Params: params, state: NewState(params)}
+	c := &Committee{Params: params, state: NewState(params), manager: NewProposalManager(params), KeyFrame: *NewKeyFrame()}
+	c.state.SetManager(c.manager)
+	return c
+}
+
+// ZZProcessTransaction: the committee's per-transaction state update followed
+// by the commit of the CR state history, as ProcessBlock does for a block.
+func (c *Committee) ZZProcessTransaction(tx interfaces.Transaction, height uint32) {
+	c.processTransaction(tx, height)
+	c.state.History.Commit(height)
 }
